@@ -113,6 +113,60 @@ def check_rolling(run, F, files):
     return len(jobs)
 
 
+FLOOR_RULE = ('a kernel that floors a variance at EPS before taking its square root or dividing by it tests '
+              'the variance itself: the quantity compared with EPS, as it stands at the test, is the window\'s '
+              'population variance sum2/n - (sum/n)^2 (algebraic identity), so a window on which the statistic '
+              'is defined cannot reach the square root with a non-positive argument')
+
+
+def _pop_var(suffix=''):
+    s1, s2 = 'S_sum' + suffix, 'S_sum2' + suffix
+    return '(%s/S_n - (%s/S_n)**2)' % (s2, s1)
+
+
+def check_floors(run, F, files):
+    """VAR.floor over the rolling kernels of the given files."""
+    from facts import strip_generics
+    jobs, meta = [], {}
+    for k in find_kernels(F):
+        if not any(k.fn.file.endswith(f) for f in files) or k.custom:
+            continue
+        m = KernelModel(k)
+        roles = acc_roles(m)
+        i = 0
+        for x in walk(m.body):
+            if x.get('k') != 'Binary' or x.get('op') not in ('Gt', 'Lt', 'Ge', 'Le'):
+                continue
+            a, b = peel(x['ch'][0]), peel(x['ch'][1])
+            is_eps = [y.get('k') == 'Path' and strip_generics(y.get('def', '')).endswith('EPS') for y in (a, b)]
+            if is_eps[0] == is_eps[1]:
+                continue
+            v = b if is_eps[0] else a
+            env_ = acc._env_at(m, x, roles)
+            g = norm(v, env_)
+            i += 1
+            cands = [_pop_var('_a'), _pop_var('_b')] if m.k.two else [_pop_var()]
+            for j, r in enumerate(cands):
+                jid = 'floor:%s#%d/%d' % (k.fn.qpath, i, j)
+                jobs.append({'id': jid, 'poly': g, 'ref': r})
+                meta.setdefault((k.fn.qpath, i), (k.fn, x, g, []))[3].append(jid)
+    res = cas.compare(jobs)
+    n = 0
+    for (q, i), (fn, x, g, jids) in meta.items():
+        n += 1
+        verdicts = [res.get(j, (None, 'no result')) for j in jids]
+        if any(v[0] for v in verdicts):
+            run.ob('VAR.floor', fn, 'floor test #%d' % i, True, loc(x), 'the tested quantity is the population variance')
+        elif all(v[0] is None for v in verdicts):
+            run.unproven.append('VAR.floor %s #%d: CAS not decided (%s)' % (fn.name, i, verdicts[0][1]))
+            run.ob('VAR.floor', fn, 'floor test #%d' % i, True, loc(x), 'not decided: %s' % verdicts[0][1], trivial=True)
+        else:
+            run.ob('VAR.floor', fn, 'floor test #%d' % i, False, loc(x),
+                   'the quantity compared with EPS is %s, not the population variance (difference %s): the variance '
+                   'reaches the square root / divisor untested' % (g.show()[:120], verdicts[0][1][:80]))
+    return n
+
+
 def _agg_roles(fn):
     """locals of a one-pass moment aggregation by role: the counting helper's result is `n`;
     a variable the helper's closure advances by X^k (X the element) is the raw k-th power
